@@ -474,6 +474,8 @@ impl IntoLower for ast::FnCall {
                     Ok(asset_def) => {
                         let policy = asset_def.policy.into_lower(ctx)?;
                         let asset_name = asset_def.asset_name.into_lower(ctx)?;
+                        // the amount is data, wherever the call itself sits
+                        let ctx = &ctx.enter_datum_expr();
                         let amount = self.args[0].into_lower(ctx)?;
 
                         Ok(ir::Expression::Assets(vec![ir::AssetExpr {
